@@ -357,6 +357,7 @@ class Model:
         self.macro_items = 0
         self.lexv = defn.d.get('lex_param') or 'lex'
         self.offv = self.ctxv = self.statev = None
+        self.ctx_reset_in_loop = False
         self._split(defn.body)
         self._find_states()
         self.paths = {}
@@ -410,6 +411,15 @@ class Model:
             # let mut state = LogosState::X; let mut offset = lex.offset(); let mut context = None; loop { match state { .. } }
             lets = [s for s in self.trailing if s.get('s') == 'let']
             loops = [s for s in self.trailing if s.get('s') == 'expr' and s['e'].get('k') == 'loop']
+            self.ctx_reset_in_loop = False
+            if len(loops) == 1 and len(lets) == 2 and len(self.trailing) == 3:
+                # the context register declared inside the loop: it is re-initialised on every transition
+                lb = loops[0]['e']['body']
+                if len(lb) == 2 and lb[0].get('s') == 'let' and lb[0]['pat'].get('p') == 'ident' and is_path(lb[0]['init']) and lb[0]['init']['path'].endswith('None'):
+                    lets = lets + [lb[0]]
+                    loops = [dict(s='expr', e=dict(k='loop', label=None, body=lb[1:]))]
+                    self.trailing = self.trailing[:2] + [lb[0]] + loops
+                    self.ctx_reset_in_loop = True
             if len(lets) != 3 or len(loops) != 1 or len(self.trailing) != 4:
                 raise Unsupported('state machine lexer prologue/loop shape (%d lets, %d loops, %d stmts)' % (len(lets), len(loops), len(self.trailing)))
             names = {}
